@@ -10,14 +10,18 @@ GROUPS = [["TokenCooccurrenceVectorizer"], ["TimedTokenCooccurrenceVectorizer"],
           ["CountFeatureCompressionTransformer", "SlidingWindowTransformer", "SequentialDifferenceTransformer", "distances"]]
 
 
-def make_groups(ctx, per, only=None):
+HEAVY = {"TokenCooccurrenceVectorizer", "TimedTokenCooccurrenceVectorizer", "MultiSetCooccurrenceVectorizer",
+         "NgramCooccurrenceVectorizer", "DistributionVectorizer"}
+
+
+def make_groups(ctx, per, only=None, light_factor=1):
     out = []
     for g in GROUPS:
         names = [n for n in g if only is None or n in only]
         if names:
             # consecutive seeds: zoo.grid() walks through the discrete parameter grid of each estimator
             out.append([(n, base + i) for n in names for base in [1000 * ctx.rng.randrange(1000)]
-                        for i in range(per if n != "distances" else 6 * per)])
+                        for i in range(6 * per if n == "distances" else per if n in HEAVY else light_factor * per)])
     return out
 
 
